@@ -84,6 +84,18 @@ def _foreign_worker(args):
     if kind == 'fixed':
         dt = pytz.utc.localize(naive_utc).astimezone(datetime.timezone(datetime.timedelta(minutes=param)))
         zattr = None
+    elif kind == 'gap':
+        # a local time that the zone skips (or repeats), localised with an explicit is_dst: the value's offset is not the zone's at that instant
+        zname, is_dst = param
+        tz = pytz.timezone(zname)
+        dt = tz.localize(naive_utc, is_dst=is_dst)        # naive_utc is a LOCAL wall time here
+        zattr = zname
+    elif kind == 'arith':
+        # arithmetic across a transition without normalize(): the tzinfo of the old period stays attached
+        zname, hours = param
+        tz = pytz.timezone(zname)
+        dt = pytz.utc.localize(naive_utc).astimezone(tz) + datetime.timedelta(hours=hours)
+        zattr = zname
     else:   # tzinfo=pytz zone attached without localize(): carries the zone's first (LMT) offset
         tz = pytz.timezone(param)
         dt = naive_utc.replace(tzinfo=tz)
@@ -225,6 +237,19 @@ def run(ctx):
             fcases.append(('fixed', k, t, tzmap))
     for hay, olson in (tzmap if thorough else rng.sample(tzmap, 40)):
         fcases.append(('misused', olson, rng.choice(instants), tzmap))
+    # date-times whose pytz tzinfo does not apply at their instant: local times inside a DST gap / fold localised with an explicit is_dst,
+    # and arithmetic across a transition without normalize()
+    dstz = [(hay, olson) for hay, olson in tzmap if len(getattr(pytz.timezone(olson), '_utc_transition_times', [])) > 20]
+    for hay, olson in (dstz if thorough else rng.sample(dstz, min(len(dstz), 30)) + [(a, b) for a, b in tzmap if b in ('Australia/Lord_Howe', 'America/St_Johns', 'Europe/Berlin', 'America/New_York')]):
+        tz = pytz.timezone(olson)
+        tts = [(t, i) for t, i in zip(tz._utc_transition_times, tz._transition_info) if 1972 <= t.year <= 2036]
+        for (t, info), (tprev, iprev) in list(zip(tts[1:], tts[:-1]))[-6:]:
+            o_before, o_after = iprev[0], info[0]
+            lo, hi = sorted([t + o_before, t + o_after])
+            mid = lo + (hi - lo) / 2                      # a wall time inside the gap (or the fold)
+            for is_dst in (False, True):
+                fcases.append(('gap', (olson, is_dst), mid.replace(microsecond=0), tzmap))
+            fcases.append(('arith', (olson, 3), t - datetime.timedelta(hours=1), tzmap))
     fres = pool.map(_foreign_worker, fcases, chunksize=16)
     fcmds = []
     olson_of = dict(tzmap)
